@@ -1,9 +1,11 @@
 import SF.Lemmas.SuperSmoother
+import SF.Lemmas.Lagf
+import SF.Lemmas.Roof
 import SF.Lemmas.Real
 import Mathlib.Analysis.Real.Pi.Bounds
 /-
   C11 — Ehlers-style indicators follow their defining difference equations.
-  Proved so far: SuperSmoother — at every step the output equals the batch re-evaluation, from the complete history,
+  Proved: SuperSmoother, LaguerreFilter and RoofingFilter.  SuperSmoother — at every step the output equals the batch re-evaluation, from the complete history,
   of  f(t) = c1·(x(t)+x(t−1))/2 + b1·f(t−1) + c3·f(t−2)  with zero initial state, reported from the N-th value on,
   where a1 = exp(−1.414·π/N), b1 = 2·a1·cos(4.4422/N), c3 = −a1², c1 = 1 − b1 − c3 (the code's literal 4.4422 for
   1.414·π; `literal_close` bounds the difference).  I.e. the register shuffling `filt_2 = filt_1; filt_1 = filt`
@@ -18,6 +20,34 @@ variable {α : Type} [Field α] [LinearOrder α] [IsStrictOrderedRing α] [Float
 /-- SuperSmoother = its difference equation, every N ≥ 1, every history -/
 theorem superSmoother_eq (N : Nat) (hN : 0 < N) (xs : List α) :
     (ssCore (α := α) N).outAfter xs = .ok (Spec.superSmoother N xs) := SS.outAfter_eq N hN xs
+
+/-- **LaguerreFilter = the four-stage Laguerre ladder** L0 = (1−γ)x + γL0[1], Lk = −γL(k−1) + L(k−1)[1] + γLk[1], all stages
+started at the first value, output (L0 + 2L1 + 2L2 + L3)/6 — for every γ and every history (the trimmed vectors and
+`len − 1` / `len − 2` indexing are proved equal to plain delays) -/
+theorem laguerreFilter_eq (g : α) (xs : List α) :
+    (lagfCore (α := α) g).outAfter xs = .ok (Spec.laguerreFilter g xs) := Lagf.outAfter_eq g xs
+
+/-- one step of the ladder, as the spec evaluates it -/
+theorem laguerre_ladder_step (g : α) (init : α × α × α × α) (r : List α) (x : α) :
+    lagLadder g init (r ++ [x]) =
+      (let s := lagLadder g init r
+       let n0 := (1 - g) * x + g * s.1
+       let n1 := -g * n0 + s.1 + g * s.2.1
+       let n2 := -g * n1 + s.2.1 + g * s.2.2.1
+       let n3 := -g * n2 + s.2.2.1 + g * s.2.2.2
+       (n0, n1, n2, n3)) := by
+  rw [Lagf.ladder_snoc]; simp
+
+/-- **RoofingFilter(N, M) = SuperSmoother(M) fed with the two-pole high-pass values hp(N+1), hp(N+2), …**, where
+hp(t) = (1−α/2)²(x(t) − 2x(t−1) + x(t−2)) + 2(1−α)hp(t−1) − (1−α)²hp(t−2), α = (cos θ + sin θ − 1)/cos θ, θ = 4.4422/N, zero initial
+state — every N, every M ≥ 1, every history -/
+theorem roofing_eq (N M' : Nat) (hM : 0 < M') (xs : List α) :
+    (roofCoreU (α := α) N M').outAfter xs = .ok (Spec.roofing N M' xs) := Roof.outAfter_eq N M' hM xs
+
+/-- the high-pass recursion, as the spec evaluates it -/
+theorem roofing_hp_step (N : Nat) (xs : List α) (x : α) :
+    hpSeq N (xs ++ [x]) = Roof.hpNext N (Roof.hpFold N xs) x :: hpSeq N xs := by
+  rw [Roof.hpSeq_eq, Roof.hpFold_snoc]; rfl
 
 /-- the difference equation the spec evaluates: appending x(t) to the history prepends
 f(t) = c1·(x(t) + x(t−1))/2 + b1·f(t−1) + c3·f(t−2) to the sequence of filter values (f(−1) = f(−2) = 0, x(−1) = pad) -/
